@@ -8,6 +8,7 @@ started from the empty heap.  `op.target` is the variable an operation writes
 (`poly v`, `move v`, `scale v`, `rot v`, `invert v`, `len v`, `split v` ↦ `v`; `copy d s`, `adopt d s` ↦ `d`).
 -/
 import ShapeVerif.Proofs.Heap
+import ShapeVerif.Gen.Dispatch
 
 namespace ShapeVerif.C08
 open ShapeVerif Heap
@@ -173,5 +174,17 @@ example : aliased.WF := by
   intro v c hv i hi
   simp only [aliased, List.mem_cons, Prod.mk.injEq, List.not_mem_nil, or_false] at hv
   rcases hv with ⟨_, rfl⟩ | ⟨_, rfl⟩ <;> simp at hi <;> simp [aliased] <;> omega
+
+/-! ### the operator layer (terms regenerated from shape.py on every run) -/
+
+/-- every short-cut return of `DefinedShape.__or__/__and__` and every Empty/Whole operator hands out a
+fresh object (`copy(…)`, a newly computed shape) or a singleton — never one of the operands itself
+(`self` is allowed only for the Empty/Whole singletons, which are immutable) -/
+theorem shortcut_results_fresh :
+    (Gen.definedOr.guards.all fun gt => gt.2.isFresh) = true ∧
+    (Gen.definedAnd.guards.all fun gt => gt.2.isFresh) = true ∧
+    Gen.definedOr.onEmpty.isFresh = true ∧ Gen.definedAnd.onEmpty.isFresh = true ∧
+    (Gen.emptyOps.all fun nt => nt.2.isFresh || nt.2 == .self) = true ∧
+    (Gen.wholeOps.all fun nt => nt.2.isFresh || nt.2 == .self) = true := by decide
 
 end ShapeVerif.C08
